@@ -175,8 +175,11 @@ def gen_tables(pid=None):
     return sh([bin_for(pid) if pid else BIN, "gen-tables", "--repo", REPO, "--out", os.path.join(COQ, "Gen")], timeout=300, env=go_env())
 
 
+COQC_TIMEOUT = int(os.environ.get("VERIF_COQC_TIMEOUT", "1200"))   # per file: a looping file must not hang the run
+
+
 def make_target(target, timeout):
-    return sh(["make", "-j%d" % NCPU, target], cwd=COQ, timeout=timeout)
+    return sh(["make", "-j%d" % NCPU, "COQC=timeout %d coqc" % COQC_TIMEOUT, target], cwd=COQ, timeout=timeout)
 
 
 def parse_assumptions(out):
